@@ -312,6 +312,29 @@ impl Gen {
         let st = w.vstate(s).unwrap();
         let split = st.split;
         let len = st.main_len + st.old_len;
+        // a rare phase that several whole-table operations get wrong: every element still in the old
+        // table, the main table empty (right after a reserve that started a resize, or after the main
+        // table was emptied by removals). Make the whole-table operations likely there.
+        if split && st.main_len == 0 && st.old_len > 0 && self.rng.gen_bool(0.55) {
+            let d = 3 - s;
+            let two = nslots == 2 && w.alive(d);
+            let pick = self.rng.gen_range(0..12);
+            let pred = if self.rng.gen_bool(0.5) { json!({"none":1}) } else { self.pred(w, s) };
+            return match pick {
+                0 | 1 => json!({"op":"DrainFilter","s":s,"pred":pred,"end":"exhaust"}),
+                2 => json!({"op":"DrainFilter","s":s,"pred":pred,"end":"drop","take":1}),
+                3 => json!({"op":"Retain","s":s,"pred":{"all":1}}),
+                4 => json!({"op":"Retain","s":s,"pred": self.pred(w, s)}),
+                5 => json!({"op":"Clear","s":s}),
+                6 => json!({"op":"Iter","s":s,"kind":"iter","extra":1}),
+                7 => json!({"op":"Drain","s":s,"end":"drop","take": self.rng.gen_range(0..=len),"extra":1}),
+                8 if two => json!({"op":"CloneFrom","s":s,"d":d}),
+                9 if two => json!({"op":"Eq","s":s,"d":d}),
+                8 | 9 => json!({"op":"Clone","s":s,"d":d}),
+                10 => json!({"op":"ShrinkToFit","s":s}),
+                _ => json!({"op":"Extend","s":s,"items":[[self.key_absent(w, s), self.val()]],"hint":1}),
+            };
+        }
         // C10: "n insertions without reallocation" after with_capacity(n) / reserve(n): fill the promised room
         if std::mem::replace(&mut self.promised, false) && !self.cfg.zst && st.main_cap - st.main_len < 300 && self.rng.gen_bool(0.25) {
             return json!({"op":"Probe","s":s});
